@@ -76,6 +76,8 @@ type cfg struct {
 	// coalesce: the state under the runtime may merge an aggregated batch with the one that follows it (a
 	// slow transport): events keep their order, but Bootstrapped is then not the last event of its batch
 	coalesce bool
+	// viaCached: the writer goes through rt.CachedState() (which forwards writes to the state)
+	viaCached bool
 }
 
 // coalescer forwards aggregated kind watches through a goroutine that may glue a batch to the next one.
@@ -227,6 +229,31 @@ func body(c cfg, x *explore.X) {
 	}
 	for _, op := range c.script {
 		vrt.Yield()
+		if c.viaCached {
+			// reads from the state itself, writes through rt.CachedState() (a conflict-retrying helper on top
+			// of a lagging cache would spin, and the scheduler is not fair to spinners)
+			f := strings.Fields(string(op))
+			switch f[0] {
+			case "create":
+				r := conformance.NewIntResource(hx.NS, f[1], 1)
+				r.Metadata().Labels().Set("l", "1")
+				if err := cached.Create(ctx, r); err != nil {
+					panic(err)
+				}
+			case "update":
+				cur, err := st.Get(ctx, hx.IntPtr(f[1]))
+				if err != nil {
+					panic(err)
+				}
+				cur.(*conformance.IntResource).SetValue(cur.(*conformance.IntResource).Value() + 1)
+				if err := cached.Update(ctx, cur); err != nil {
+					panic(err)
+				}
+			default:
+				panic("viaCached: " + op)
+			}
+			continue
+		}
 		doW(ctx, st, op)
 	}
 	vrt.WaitQuiescent()
@@ -602,6 +629,7 @@ func build(tier string) []explore.Scenario {
 		{name: "bootstrap-race/2preexisting/1reader", pre: []wop{"create a", "create b"}, script: []wop{"update a"}, prologue: false, readers: 1, nReads: 1, bounds: b0},
 		{name: "bootstrap-coalesced/3preexisting", pre: []wop{"create a", "create b", "create c"}, script: []wop{"update b", "destroy c", "create d"}, prologue: false, readers: 0, bounds: []int{0}, coalesce: true},
 		{name: "steady-coalesced/update-create/1reader", pre: []wop{"create a", "create b"}, script: []wop{"update a", "create c"}, prologue: true, readers: 1, nReads: 1, bounds: []int{0}, coalesce: true},
+		{name: "steady/writes-through-cached-state/1reader", pre: []wop{"create a"}, script: []wop{"update a", "update a", "update a"}, prologue: true, readers: 1, nReads: 1, bounds: []int{0}, viaCached: true},
 		{name: "steady/update-create/1reader", pre: []wop{"create a", "create b"}, script: []wop{"update a", "create c"}, prologue: true, readers: 1, nReads: 2, bounds: b0},
 		{name: "steady/update-destroy-unlabel/1reader", pre: []wop{"create a", "create b"}, script: []wop{"unlabel a", "destroy b"}, prologue: true, readers: 1, nReads: 2, bounds: b0},
 		{name: "steady/2readers", pre: []wop{"create a"}, script: []wop{"update a", "update a"}, prologue: true, readers: 2, nReads: 1, bounds: b2r},
